@@ -2,6 +2,8 @@ import OpusProofs.OpusFrameHybridRed
 import OpusProofs.OpusFrameHybridRedExample2
 import OpusProofs.OpusFrameHybridRedMain
 import OpusProofs.OpusFrameHybridRedExample3
+import OpusProofs.OpusFrameHybridRedCbr
+import OpusProofs.OpusFrameHybridRedExample4
 /-
   Property C08, slice Hybrid — frame-level lock step for HYBRID Opus frames WITH the redundancy signalling.
 
@@ -117,6 +119,56 @@ example : (∃ fr, OwnCoderFrame worldR19 cfgR19 s0R19 fr ∧ fr.fin.rng = 72705
      | _ => false) = true :=
   ⟨ownR19, by decide, hybRedLen, hybOk, hybRedHyps, hybRedDec⟩
 
+/-- **Hybrid frame WITH redundancy, CBR — the length contracts proved from the model.**  `opus_frame_lockstep_hybrid_red_partial`
+    with `hgate` and `hsane` replaced by what the ENCODER computes: its budget test `ec_tell+17+20 <= 8*(max_data_bytes-1)` (`henc`,
+    opus_encoder.c:2239), its bound `redundancy_bytes <= max_redundancy = (max_data_bytes-1)-((ec_tell+8+3+7)>>3)` with `ec_tell` read
+    behind the `celt_to_silk` bit (`hmax`, :2246-2256, the `IMIN` not overridden by `IMAX(2, ·)`), and `hcbr`: the finished main part
+    has the size `nb_compr_bytes = (max_data_bytes-1)-redundancy_bytes` it was shrunk to (the CELT encoder does not shrink further —
+    CBR).  The decoder's `ec_tell+37 <= 8*len` then follows (`hybrid_red_gate_cbr`), and so does `ec_tell <= 8*len` behind the
+    signalling: `ec_enc_uint(·,256)` costs at most 8 bits (C08 `tell_contracts`) and `max_redundancy` reserved them
+    (`hybrid_red_sane_cbr`).  Still `_partial` for the CELT main part only (last clause, as above). -/
+theorem opus_frame_lockstep_hybrid_red_cbr_partial (buf : List Nat) (maxData bandwidth nCh ms10 spf48 : Nat) (pk : PacketIn)
+    (st : SilkSt) (c2s : Nat) (celtOps : List Op) (w : OpusProofs.CeltHdr.World) (ccfg : Opus.CeltSymsEnc.EncCfg)
+    (s0 : Opus.CeltSymsEnc.St) (fr : Opus.CeltBandsEnc.EncFrame)
+    (hms : ms10 = 100 ∨ ms10 = 200)
+    (hs : maxData - 1 ≤ buf.length) (hb : BytesOk buf) (hok : PacketOk (hybridCfg nCh ms10) pk)
+    (hc2s : c2s ≤ 1) (hown : OwnCoderFrame w ccfg s0 fr)
+    (hcc : ccfg.start = 0 ∧ ccfg.end_ = Opus.CeltSyms.endBandOf bandwidth ∧ ccfg.C = nCh ∧ ccfg.LM = 1)
+    (hrb : 2 ≤ w.bytes.length ∧ w.bytes.length ≤ 257)
+    (hsuf : LegalRun (encRun (encInit buf (maxData - 1)) (packetOps (hybridCfg nCh ms10) pk ++ redSigOps true true 1 c2s w.bytes.length))
+      (Op.shrink (maxData - 1 - w.bytes.length) :: celtOps))
+    (hn : (encodeAll buf (maxData - 1) (hybridOps maxData (hybridCfg nCh ms10) pk true 1 c2s w.bytes.length celtOps)).nbitsTotal < 4294967296)
+    (herr : (encodeAll buf (maxData - 1) (hybridOps maxData (hybridCfg nCh ms10) pk true 1 c2s w.bytes.length celtOps)).error = 0)
+    (hcbr : (encodeAll buf (maxData - 1) (hybridOps maxData (hybridCfg nCh ms10) pk true 1 c2s w.bytes.length celtOps)).storage =
+      maxData - 1 - w.bytes.length)
+    (henc : tell (encRun (encInit buf (maxData - 1)) (packetOps (hybridCfg nCh ms10) pk)) + 17 + 20 ≤ 8 * ((maxData - 1 : Nat) : Int))
+    (hmax : (w.bytes.length : Int) ≤ ((maxData - 1 : Nat) : Int) -
+      (tell (encRun (encInit buf (maxData - 1)) (packetOps (hybridCfg nCh ms10) pk ++ [Op.bitLogp 1 12, Op.bitLogp c2s 1])) + 8 + 3 + 7) / 8)
+    (hmainpos : 0 < (encodeAll buf (maxData - 1) (hybridOps maxData (hybridCfg nCh ms10) pk true 1 c2s w.bytes.length celtOps)).storage) :
+    ∃ o, decodeOpusFrame 1001 bandwidth nCh ms10 false st
+        (hybridFrame buf maxData (hybridCfg nCh ms10) pk true 1 c2s celtOps w.bytes fr.fin.rng).payload = .ok o ∧
+      o.redundancy = 1 ∧ o.celtToSilk = c2s ∧ o.redundancyBytes = w.bytes.length ∧
+      o.len = ((maxData - 1 - w.bytes.length : Nat) : Int) ∧
+      o.dec.error = 0 ∧
+      o.dec.rng = (encRun (encInit buf (maxData - 1)) (packetOps (hybridCfg nCh ms10) pk ++ redSigOps true true 1 c2s w.bytes.length)).rng ∧
+      tell o.dec = tell (encRun (encInit buf (maxData - 1)) (packetOps (hybridCfg nCh ms10) pk ++ redSigOps true true 1 c2s w.bytes.length)) ∧
+      o.dec.storage = maxData - 1 - w.bytes.length ∧
+      (CeltFrameRT { start := 17, end_ := Opus.CeltSyms.endBandOf bandwidth, C := nCh, LM := Opus.CeltSyms.lmOf spf48 } o.len.toNat o.dec
+          (encodeAll buf (maxData - 1) (hybridOps maxData (hybridCfg nCh ms10) pk true 1 c2s w.bytes.length celtOps)).rng →
+        decRangeFinal 1001 bandwidth nCh spf48 (hybridFrame buf maxData (hybridCfg nCh ms10) pk true 1 c2s celtOps w.bytes fr.fin.rng).payload o =
+          .ok (hybridFrame buf maxData (hybridCfg nCh ms10) pk true 1 c2s celtOps w.bytes fr.fin.rng).rangeFinal) :=
+  opus_frame_lockstep_hybrid_red_cbr_partial_all buf maxData bandwidth nCh ms10 spf48 pk st c2s celtOps w ccfg s0 fr hms hs hb hok hc2s
+    hown hcc hrb hsuf hn herr hcbr henc hmax hmainpos
+
+open Opus.OpusFrameProofs.Example in
+/-- the 90-byte example frame above is CBR: its main part has `91-1-30 = 60` bytes, the encoder's budget test passed and
+    `30 <= max_redundancy` (the other hypotheses: the example of `opus_frame_lockstep_hybrid_red_partial`) -/
+example : (encodeAll bufHR (91 - 1) (hybridOps 91 (hybridCfg 1 100) hybPacket true 1 1 30 allHR)).storage = 91 - 1 - 30 ∧
+    tell (encRun (encInit bufHR (91 - 1)) (packetOps (hybridCfg 1 100) hybPacket)) + 17 + 20 ≤ 8 * ((91 - 1 : Nat) : Int) ∧
+    ((30 : Nat) : Int) ≤ ((91 - 1 : Nat) : Int) -
+      (tell (encRun (encInit bufHR (91 - 1)) (packetOps (hybridCfg 1 100) hybPacket ++ [Op.bitLogp 1 12, Op.bitLogp 1 1])) + 8 + 3 + 7) / 8 :=
+  hybRedCbrHyps
+
 /-- The decoder's sanity test `len*8 >= ec_tell` behind the signalling (opus_decoder.c:492-497) from the encoder's own
     computation `redundancy_bytes <= max_redundancy = (max_data_bytes-1)-((ec_tell+8+3+7)>>3)` (opus_encoder.c:2246-2256; `ec_tell`
     read behind the `celt_to_silk` bit) when `IMAX(2, ·)` does not override it, the `ec_enc_uint(·,256)` costs at most 8 bits
@@ -138,7 +190,8 @@ open OpusProofs.CeltHdr in
     same bytes and `rng` as the patched main coder (`patched_equals_true_bits`).  A decoder initialised on those bytes reads
     back `hybridP0G` (SILK flag bits and body, then `ec_dec_bit_logp(12) = red`, `celt_to_silk`, `ec_dec_uint(256) = R.length-2`),
     and C03's `celtFrame` from there returns the encoder's header (`FrameAgree`: header fields, allocation, every coded value of
-    the trace) and ends with the encoder's final `rng`.  With `opus_frame_lockstep_hybrid_red_partial` (same `rng`, `ec_tell`,
+    the trace) and ends with the encoder's final `rng`; at the hand-over (`w.decAt hybridP0G` = the state after those reads) its `rng`,
+    `ec_tell` and `storage` are the values `opus_frame_lockstep_hybrid_red_partial` proves for `o.dec`.  With that theorem (same `rng`, `ec_tell`,
     `storage`, error flag at the hand-over on the WHOLE frame) what remains open for the `_partial` hypothesis is only that the
     two decoder runs — initialised on `w.bytes` resp. on `w.bytes ++ R` with `storage` reduced afterwards — continue alike. -/
 theorem hybrid_red_main_part_roundtrip (buf : List Nat) (maxData nCh ms10 : Nat) (pk : PacketIn) (gate : Bool)
@@ -158,6 +211,11 @@ theorem hybrid_red_main_part_roundtrip (buf : List Nat) (maxData nCh ms10 : Nat)
       (hybridFrame buf maxData (hybridCfg nCh ms10) pk gate red c2s fr.ops R rr).payload = w.bytes ++ R ∧
       w.bytes.length = w.len ∧
       Reads (decInit w.bytes w.len) (hybridP0G maxData (hybridCfg nCh ms10) pk gate red c2s R.length) ∧
+      (w.decAt (hybridP0G maxData (hybridCfg nCh ms10) pk gate red c2s R.length)).rng =
+        (encRun (encInit buf (maxData - 1)) (packetOps (hybridCfg nCh ms10) pk ++ redSigOps true gate red c2s R.length)).rng ∧
+      tell (w.decAt (hybridP0G maxData (hybridCfg nCh ms10) pk gate red c2s R.length)) =
+        tell (encRun (encInit buf (maxData - 1)) (packetOps (hybridCfg nCh ms10) pk ++ redSigOps true gate red c2s R.length)) ∧
+      (w.decAt (hybridP0G maxData (hybridCfg nCh ms10) pk gate red c2s R.length)).storage = w.len ∧
       FrameAgree w (hybridP0G maxData (hybridCfg nCh ms10) pk gate red c2s R.length) ccfg fr dh ∧
       Opus.CeltBands.celtFrame (cfgD ccfg) w.len
           (decRun (decInit w.bytes w.len) (hybridP0G maxData (hybridCfg nCh ms10) pk gate red c2s R.length)).2 =
